@@ -547,6 +547,39 @@ def desugar_exitstack(fn: ast.FunctionDef) -> ast.FunctionDef:
     import copy
     new = copy.deepcopy(fn)
     counter = [0]
+    # `with a, b as s:` is `with a: with b as s:`; a with-item that is a local bound once to a call and used nowhere else
+    # (`guard = override(...)` … `with guard:`) is that call (a context-manager object does nothing until it is entered)
+    stores_: Dict[str, List[ast.Assign]] = {}
+    loads_: Dict[str, int] = {}
+    for n in ast.walk(new):
+        if isinstance(n, ast.Assign) and len(n.targets) == 1 and isinstance(n.targets[0], ast.Name):
+            stores_.setdefault(n.targets[0].id, []).append(n)
+        elif isinstance(n, ast.Name) and isinstance(n.ctx, ast.Load):
+            loads_[n.id] = loads_.get(n.id, 0) + 1
+    dropped: List[ast.Assign] = []
+
+    class W(ast.NodeTransformer):
+        def visit_With(self, node):
+            node = self.generic_visit(node)
+            for it in node.items:
+                e = it.context_expr
+                if isinstance(e, ast.Name) and len(stores_.get(e.id, [])) == 1 and loads_.get(e.id) == 1 and isinstance(stores_[e.id][0].value, ast.Call):
+                    it.context_expr = stores_[e.id][0].value
+                    dropped.append(stores_[e.id][0])
+            if len(node.items) > 1:
+                inner = node
+                body = node.body
+                for it in reversed(node.items[1:]):
+                    body = [ast.copy_location(ast.With(items=[it], body=body), node)]
+                return ast.copy_location(ast.With(items=[node.items[0]], body=body), node)
+            return node
+    new = W().visit(new)
+    if dropped:
+        class D(ast.NodeTransformer):
+            def visit_Assign(self, node):
+                return None if any(node is d for d in dropped) else node
+        new = D().visit(new)
+    ast.fix_missing_locations(new)
 
     def registration(st: ast.stmt, S: str):
         """('enter', cm, target) | ('close', expr) | None"""
